@@ -25,8 +25,8 @@ def run(ctx):
     binary = ctx.go_build("c15")
     steps_f, stress_f = ctx.path("steps.ndjson"), ctx.path("stress.ndjson")
     ctx.harness(binary, ["-plans", pdir, "-out", steps_f, "-stress", stress_f, "-seed", ctx.seed,
-                         "-rand", ctx.q(110, 3000), "-nstress", ctx.q(25, 500),
-                         "-ncold", ctx.q(50, 800), "-nexit", ctx.q(1000, 20000), "-nlong", ctx.q(1, 12)],
+                         "-rand", ctx.q(110, 2600), "-nstress", ctx.q(25, 500),
+                         "-ncold", ctx.q(50, 800), "-nexit", ctx.q(1000, 20000), "-nlong", ctx.q(1, 8)],
                 traces=[steps_f, stress_f])
     steps = ctx.load_traces(steps_f)
     stress = ctx.load_traces(stress_f)
